@@ -19,5 +19,6 @@ verus! {
 //@part btree_merge
 //@part dims
 //@part number
+//@autoslots
 } // verus!
 fn main() {}
